@@ -49,6 +49,10 @@ pub enum FeR {
     /// the pattern itself; top limb masked to stay below the modulus. Repeated / cancelling limbs defeat
     /// limb-folding shortcuts (xor / sum of limbs used as a zero or equality test).
     LimbCombo(u64, u64, Vec<u8>),
+    /// p - 1 - k for k up to 255
+    PMinusK(u8),
+    /// a value below p that agrees with p in its leading `n` bits and is otherwise taken from the limbs
+    SharesTopBits(u8, Vec<u64>),
 }
 
 impl FeR {
@@ -96,6 +100,17 @@ impl FeR {
                 let r = (Z::one() << (64 * nlimbs)) % p;
                 let rinv = r.modpow(&(p - Z::from(2u32)), p);
                 (m * rinv) % p
+            }
+            FeR::PMinusK(k) => p - &one - Z::from(*k as u32),
+            FeR::SharesTopBits(n, l) => {
+                let bits = p.bits();
+                let n = std::cmp::min(*n as usize, bits - 1);
+                let low_bits = bits - n;
+                let mask = (Z::one() << low_bits) - Z::one();
+                let top = (p >> low_bits) << low_bits;
+                let cand = &top | (crate::adapt::limbs_to_z(l) & &mask);
+                // p itself has some set bit below the top n bits; values >= p are folded below it
+                if &cand >= p { top } else { cand }
             }
             FeR::LimbCombo(w1, w2, pat) => {
                 let top_bits = (p.bits() - 1) % 64; // bits available in the top limb without reaching p
@@ -566,6 +581,12 @@ pub enum PointR {
     /// G2: full-curve point with a structured coordinate (x or y in Fq or purely imaginary), times a small
     /// multiplier is NOT applied (the structure would be lost). G1: falls back to a full-curve point.
     Special(u8),
+    /// a point of the full curve group whose x-coordinate is STRUCTURED: x = (c0, c1) from the structured field
+    /// generator (G1: c0 only), stepped by +1 until x^3 + b is a square; y = the root, negated on request.
+    /// (x just below the modulus, x sharing its leading bits with the modulus, small x, powers of two, limb
+    /// patterns ...; such points are almost never in the subgroup, so they exercise the unchecked decoders,
+    /// the encoders and the group law.)
+    XStructured(FeR, FeR, bool),
 }
 
 impl PointR {
@@ -597,6 +618,19 @@ impl PointR {
                     pool.special[*i as usize % pool.special.len()].1.clone()
                 }
             }
+            PointR::XStructured(c0, c1, neg) => {
+                let one = <G::F as Fld>::one();
+                let mut x = <G::F as SqrtFld>::from_fq_pair(&c0.fq(), &c1.fq());
+                let mut found = None;
+                for _ in 0..128 {
+                    if let Some(y) = c.rhs(&x).sqrt() {
+                        found = Some(Pt::Aff(x.clone(), if *neg { y.neg() } else { y }));
+                        break;
+                    }
+                    x = x.add(&one);
+                }
+                found.unwrap_or_else(|| G::gen())
+            }
             PointR::Neg(inner) => c.neg(&inner.build::<G>()),
             PointR::Beta(inner, k) => match inner.build::<G>() {
                 Pt::Inf => Pt::Inf,
@@ -615,7 +649,7 @@ impl PointR {
     pub fn in_subgroup(&self) -> bool {
         match self {
             PointR::Identity | PointR::Gen | PointR::SmallMult(_) | PointR::Sub(_) => true,
-            PointR::Full(_) | PointR::SmallOrder(_, _) | PointR::Mixed(_, _, _) | PointR::Special(_) => false,
+            PointR::Full(_) | PointR::SmallOrder(_, _) | PointR::Mixed(_, _, _) | PointR::Special(_) | PointR::XStructured(_, _, _) => false,
             PointR::Neg(i) => i.in_subgroup(),
             // x -> beta x is the GLV endomorphism on E(Fq) and on E'(Fq2): it preserves the subgroup
             PointR::Beta(i, _) => i.in_subgroup(),
@@ -632,8 +666,21 @@ impl PointR {
             PointR::Neg(_) => "pt-negated",
             PointR::Beta(_, _) => "pt-same-y",
             PointR::Special(_) => "pt-structured-coordinate",
+            PointR::XStructured(_, _, _) => "pt-structured-x",
         }
     }
+}
+
+/// structured values for a coordinate: the field generator plus more weight on the region just below the modulus
+/// (q - 1 - k for k up to 255: the leading limbs equal those of the modulus) and on values that share only the
+/// leading 16 / 32 / 64 bits with it
+fn x_structured_fe() -> BoxedStrategy<FeR> {
+    prop_oneof![
+        4 => fq_strategy(),
+        3 => any::<u8>().prop_map(FeR::PMinusK),
+        3 => (prop_oneof![Just(16u8), Just(32u8), Just(64u8), Just(128u8)], any::<[u64; 6]>()).prop_map(|(b, l)| FeR::SharesTopBits(b, l.to_vec())),
+    ]
+    .boxed()
 }
 
 fn point_leaf(any_curve_point: bool) -> BoxedStrategy<PointR> {
@@ -647,6 +694,7 @@ fn point_leaf(any_curve_point: bool) -> BoxedStrategy<PointR> {
             4 => (0u8..5, 0u8..POOL_SMALL_PER_PRIME as u8).prop_map(|(p, i)| PointR::SmallOrder(p, i)),
             2 => (0u8..5, 0u8..POOL_SMALL_PER_PRIME as u8, 0u8..POOL_SUB as u8).prop_map(|(p, i, s)| PointR::Mixed(p, i, s)),
             2 => (0u8..16).prop_map(PointR::Special),
+            4 => (x_structured_fe(), prop_oneof![2 => Just(FeR::Zero), 2 => x_structured_fe(), 1 => fq_uniformish()], any::<bool>()).prop_map(|(a, b, n)| PointR::XStructured(a, b, n)),
         ]
         .boxed()
     } else {
